@@ -150,6 +150,19 @@ pub fn sr_rr_spaces(tier: Tier, seed: u64) -> Vec<CfgSpace> {
         }
     }));
 
+    // (2c) block lists as patterns over two different blocks: every sequence of length 0..=6 over {A, B} (equal
+    // ends with a differing middle, runs of identical blocks, alternations), SR and RR
+    v.push(CfgSpace::new("sr-rr-block-patterns", 127 * 2, move |idx| {
+        let (a, b) = (sentinel_rb(3, salt), sentinel_rb(17, salt ^ 0x0101_0101));
+        let seq = seq_decode(2, idx / 2);
+        let blocks: Vec<Rb> = seq.iter().map(|&k| if k == 0 { a.clone() } else { b.clone() }).collect();
+        if idx % 2 == 0 {
+            Pkt::Sr { ssrc: 9, ntp: 8, rtp: 7, pc: 6, oc: 5, blocks, pad: 0 }
+        } else {
+            Pkt::Rr { ssrc: 9, blocks, pad: 4 }
+        }
+    }));
+
     // (3) fraction-lost x cumulative-lost share a word: full product
     let w24b = w24.clone();
     let nw = w24b.len() as u64;
@@ -289,6 +302,17 @@ pub fn sdes_spaces(tier: Tier, seed: u64) -> Vec<CfgSpace> {
         Pkt::Sdes { chunks: vec![Chunk { ssrc: 7, items: vec![it.clone()] }, Chunk { ssrc: 0, items: vec![it] }], pad: if idx % 2 == 0 { 0 } else { 4 } }
     }));
 
+    // (d2) PRIV splits on both sides of the limit: prefix + value = 253 and 254 are representable, 255 and 256 are
+    // not (prefix + its length byte + value must fit 255) - what the builder accepts there must still come back
+    v.push(CfgSpace::new("sdes-priv-splits-around-the-limit", 257 * 4, move |idx| {
+        let pl = (idx % 257) as usize;
+        let total = 253 + (idx / 257) as usize;
+        let prefix: Vec<u8> = (0..pl.min(total)).map(|i| (i * 7 + 1) as u8).collect();
+        let it = Item::priv_(&prefix, &val(total - prefix.len(), idx));
+        Pkt::Sdes { chunks: vec![Chunk { ssrc: 0x0102_0304, items: vec![Item::new(1, b"a"), it] }], pad: 0 }
+    }));
+
+    v.push(sdes_pattern_space());
     // (e) distance of the last item from the packet end: last item of length 0,1,2 after a filler of every residue
     let r = Radix::new(&[3, 8, 8, 3, 4]);
     let rl = r.len();
@@ -389,7 +413,34 @@ pub fn bye_spaces(_tier: Tier, seed: u64) -> Vec<CfgSpace> {
         let reason = long_multibyte_text((idx % LONG_REASONS) as usize);
         let n = [0usize, 1, 31][((idx / LONG_REASONS) % 3) as usize];
         Pkt::Bye { ssrcs: (0..n as u32).map(|i| 0x0A00_0000 + i).collect(), reason, pad: if idx / LONG_REASONS / 3 == 0 { 0 } else { 8 } }
-    })]
+    }),
+    bye_pattern_space()]
+}
+
+/// BYE source lists as patterns over three values (duplicates, equal ends, alternations): every sequence of length
+/// 0..=5 over {a, b, 0}.
+pub fn bye_pattern_space() -> CfgSpace {
+    CfgSpace::new("bye-source-patterns", seq_count(3, 5) * 2, |idx| {
+        let ssrcs = seq_decode(3, idx / 2).iter().map(|&k| [0x1111_1111u32, 0x2200_0022, 0][k as usize]).collect();
+        Pkt::Bye { ssrcs, reason: if idx % 2 == 0 { String::new() } else { "why".into() }, pad: 0 }
+    })
+}
+
+/// SDES chunk lists as patterns: every sequence of length 0..=4 over four chunk shapes (SSRC 0 without items, SSRC 0
+/// with an item, a non-zero SSRC without items, a non-zero SSRC with two items).
+pub fn sdes_pattern_space() -> CfgSpace {
+    CfgSpace::new("sdes-chunk-patterns", seq_count(4, 4) * 2, |idx| {
+        let chunks = seq_decode(4, idx / 2)
+            .iter()
+            .map(|&k| match k {
+                0 => Chunk { ssrc: 0, items: vec![] },
+                1 => Chunk { ssrc: 0, items: vec![Item::new(1, b"z")] },
+                2 => Chunk { ssrc: 0x0A00_0000, items: vec![] },
+                _ => Chunk { ssrc: 0x0000_00B0, items: vec![Item::new(2, b"nm"), Item::priv_(b"p", b"")] },
+            })
+            .collect();
+        Pkt::Sdes { chunks, pad: if idx % 2 == 0 { 0 } else { 8 } }
+    })
 }
 
 pub const LONG_REASONS: u64 = 14;
@@ -505,6 +556,21 @@ pub fn nack_spaces(tier: Tier, _seed: u64) -> Vec<CfgSpace> {
         }
         fb_wrap(Kind::Transport, Fci::Nack(seqs), k)
     }));
+    // every pair of gaps 1..=52 between three numbers (the window arithmetic of a word spans 17; where the second
+    // number opens a new word matters to the third), and a fourth number at selected gaps
+    v.push(CfgSpace::new("nack-three-numbers-all-gaps-to-52", 52 * 52 * 3, move |idx| {
+        let d1 = (idx % 52) as u32 + 1;
+        let d2 = ((idx / 52) % 52) as u32 + 1;
+        let a = [100u32, 0, 65_535 - 104][(idx / 2704) as usize];
+        let seqs: Vec<u16> = [a + d1, a + d1 + d2, a].iter().filter(|x| **x <= 65_535).map(|x| *x as u16).collect();
+        Pkt::Fb { kind: Kind::Transport, sender: 0x5E4D_3C2B, media: 0x1A2B_3C4D, fci: Fci::Nack(seqs), pad: if idx % 7 == 3 { 4 } else { 0 } }
+    }));
+    let gaps: [u32; 9] = [1, 8, 16, 17, 18, 25, 33, 34, 35];
+    v.push(CfgSpace::new("nack-four-numbers-selected-gaps", 9 * 9 * 9, move |idx| {
+        let (d1, d2, d3) = (gaps[(idx % 9) as usize], gaps[((idx / 9) % 9) as usize], gaps[(idx / 81) as usize]);
+        let a = 0x2000u32;
+        Pkt::Fb { kind: Kind::Transport, sender: 0x5E4D_3C2B, media: 0x1A2B_3C4D, fci: Fci::Nack(vec![(a + d1 + d2 + d3) as u16, a as u16, (a + d1 + d2) as u16, (a + d1) as u16]), pad: 0 }
+    }));
     // pairs and triples at every power-of-two distance (wrap-around of the 16-bit difference)
     let w16 = u16_walk();
     let n16 = w16.len() as u64;
@@ -543,6 +609,16 @@ pub fn fir_spaces(tier: Tier, _seed: u64) -> Vec<CfgSpace> {
         let entries = s.iter().map(|&x| (ssrcs[(x % 5) as usize], seqs[(x / 5) as usize])).collect();
         fb_wrap(Kind::Payload, Fci::Fir(entries), (idx % 2) * 24 + idx % 24)
     })]
+}
+
+/// SLI entry lists and FIR add-sequences as patterns over two entries (duplicates, equal ends with a differing middle).
+pub fn fb_pattern_spaces() -> Vec<CfgSpace> {
+    vec![
+        CfgSpace::new("sli-entry-patterns", seq_count(2, 6), |idx| {
+            let e = seq_decode(2, idx).iter().map(|&k| if k == 0 { (5u16, 6u16, 7u8) } else { (0x1FFF, 1, 0x3F) }).collect();
+            Pkt::Fb { kind: Kind::Payload, sender: 1, media: 2, fci: Fci::Sli(e), pad: 0 }
+        }),
+    ]
 }
 
 pub fn sli_spaces(_tier: Tier, _seed: u64) -> Vec<CfgSpace> {
@@ -592,6 +668,15 @@ pub fn rpsi_spaces(_tier: Tier, _seed: u64) -> Vec<CfgSpace> {
             })
             .collect();
         Pkt::Fb { kind: Kind::Payload, sender: 0x5E4D_3C2B, media: 0x1A2B_3C4D, fci: Fci::Rpsi { pt: pts[c[2] as usize], data, overrun }, pad: PAD_EDGE[c[4] as usize] }
+    }),
+    // ignored-bit counts above 8, and payload types above 127, on strings of 0..=6 bytes: not representable - the
+    // builder must refuse them, and the round trip shows it if it does not
+    CfgSpace::new("rpsi-out-of-range-ignored-bits-and-types", 7 * 24 * 3, |idx| {
+        let n = (idx % 7) as usize;
+        let overrun = [9u8, 10, 12, 15, 16, 17, 23, 24, 25, 31, 32, 33, 40, 47, 48, 49, 56, 64, 100, 128, 200, 254, 255, 8][((idx / 7) % 24) as usize];
+        let pt = [96u8, 128, 255][(idx / 168) as usize];
+        let overrun = if pt == 96 { overrun } else { overrun.min(8) % 9 };
+        Pkt::Fb { kind: Kind::Payload, sender: 1, media: 2, fci: Fci::Rpsi { pt, data: (0..n).map(|i| 0xF1u8.wrapping_add(i as u8)).collect(), overrun }, pad: 0 }
     })]
 }
 
@@ -666,6 +751,7 @@ pub fn fb_spaces(tier: Tier, seed: u64) -> Vec<CfgSpace> {
     v.extend(rpsi_spaces(tier, seed));
     v.extend(pli_spaces(tier, seed));
     v.extend(fb_large_spaces());
+    v.extend(fb_pattern_spaces());
     // all paddings on one instance of each FCI
     let pads = pad_all();
     v.push(CfgSpace::new("fb-each-fci-x-all-paddings", 5 * 64, move |idx| {
